@@ -10,7 +10,9 @@
     push <cp> | push_str <hex> | insert <idx> <cp> | insert_str <idx> <hex> | remove <idx> | pop |
     truncate <n> | clear | retain <oracle: string over k/d/p, "-" = empty> | drain <sb> <eb> <take> |
     replace_range <sb> <eb> <hex> | extend_from_within <sb> <eb> | split_off <sb> <eb> | into_cstr |
-    reserve <n> | reserve_exact <n> | from_utf8 <hex> | from_utf16 <hex of u16 units, big endian> | from_utf16_lossy <hex> |
+    reserve <n> | reserve_exact <n> | extend_zeroed <n> | write_str <hex> | write_char <cp> |
+    extend_chars <by_ref> <cps> | extend_strs <add_assign> <hex>… | shrink_to <n> g<cap> | shrink_to_fit g<cap> |
+    into_str | into_boxed_str | into_fixed_string | into_bytes | into_string |   (a leading `try_` is ignored) from_utf8 <hex> | from_utf16 <hex of u16 units, big endian> | from_utf16_lossy <hex> |
     cstr <hex-with-nul> | cstr_from_str <hex> | cstr_fmt lit <hex> | cstr_fmt pieces <hex>… |
     boundary <idx> | valid <hex> | chars
 
@@ -127,11 +129,42 @@ def splitGrant (toks : List String) : List String × Nat :=
     | _ => (toks, 0)
   | none => (toks, 0)
 
+/-- `try_push` and `push` are the same model function: drop the prefix -/
+def stripTry (toks : List String) : List String :=
+  match toks with
+  | t :: r => (if t.startsWith "try_" then (t.drop 4).toString else t) :: r
+  | [] => []
+
+/-- did the arena shrink the allocation? (`g` = the observed capacity afterwards) -/
+def shrunk (s : State) (target grant : Nat) : Bool := grant == target && target < s.cap
+
 def handleOp (d : DState) (toks0 : List String) : Option (DState × String) :=
-  let (toks, grant) := splitGrant toks0
+  let (toks1, grant) := splitGrant toks0
+  let toks := stripTry toks1
   let fx := allocOf d.kind grant
   let s := d.s
+  let conv : Option (DState × String) :=
+    let v := intoBytes s true
+    some (d, "ok:" ++ toHex v ++ " | " ++ toHex v ++ " | " ++ toString v.length ++ " | -")
   match toks with
+  | ["into_str"] => conv
+  | ["into_boxed_str"] => conv
+  | ["into_fixed_string"] => conv
+  | ["into_bytes"] => conv
+  | ["into_string"] => conv
+  | ["extend_zeroed", n] => do pure (finish d (extendZeroed fx s (← n.toNat?)) unit)
+  | ["write_str", h] => do pure (finish d (writeStr fx s (← parseHex h)) unit)
+  | ["write_char", c] => do pure (finish d (writeChar fx s (← parseChar c)) unit)
+  | ["extend_chars", _, cs] => do
+    let l ← if cs == "-" then some [] else (cs.splitOn ",").mapM parseChar
+    pure (finish d (extendChars fx s l) unit)
+  | "extend_strs" :: _ :: hs => do
+    let ps ← hs.mapM parseHex
+    pure (finish d (extendStrs fx s ps) unit)
+  | ["shrink_to", n] => do
+    let n ← n.toNat?
+    pure (finish d (shrinkTo s n (shrunk s (max s.len n) grant)) unit)
+  | ["shrink_to_fit"] => some (finish d (shrinkToFit s (shrunk s s.len grant)) unit)
   | ["reserve", n] => do pure (finish d (reserveOp fx s (← n.toNat?)) unit)
   | ["reserve_exact", n] => do pure (finish d (reserveExactOp fx s (← n.toNat?)) unit)
   | ["push", c] => do pure (finish d (push fx s (← parseChar c)) unit)
@@ -206,6 +239,7 @@ def parseKind : String → Option Kind
 /-- constructor: `s` = `from_str_in` (`alloc_str` for a box); `c<n>` = `with_capacity_in(n)` then `push_str` -/
 def construct (k : Kind) (ctor : String) (b : Bytes) (grant : Nat) : Option (Res Unit) :=
   let al := allocOf k grant
+  let ctor := if ctor.startsWith "t" then (ctor.drop 1).toString else ctor
   match ctor.toList with
   | ['s'] =>
     match k with
